@@ -6,9 +6,13 @@ from . import reports
 from .types import ExpressionToken
 
 
-def wrap_impure(expr, invoke):
+def wrap_impure(expr, invoke, state):
     def fn(*args):
         expr.value = invoke(*args)
+        # The value is remembered only for the statement instance it was
+        # computed for: the same token is compiled again, with another '.',
+        # by every further copy of a '.repeat' body.
+        expr.value_state = state
         return expr.value
     return fn
 
@@ -26,9 +30,10 @@ class InfixOperator(ExpressionToken):
         self.lhs: ExpressionToken = lhs
         self.rhs: ExpressionToken = rhs
         self.value = None
+        self.value_state = None
 
     def resolve(self, state):
-        if self.value is not None:
+        if self.value is not None and self.value_state is state:
             return self.value
 
         lhs = self.lhs.resolve(state)
@@ -39,7 +44,7 @@ class InfixOperator(ExpressionToken):
         # is True
         invoke = self.fn if self.token else type(self).fn
         if not self.pure:
-            invoke = wrap_impure(self, invoke)
+            invoke = wrap_impure(self, invoke, state)
 
         if not isinstance(lhs, BaseDeferred) and not isinstance(rhs, BaseDeferred):
             return invoke(lhs, rhs)
@@ -66,16 +71,17 @@ class UnaryOperator(ExpressionToken):
         super().__init__(ctx_start, ctx_end)
         self.operand: ExpressionToken = operand
         self.value = None
+        self.value_state = None
 
     def resolve(self, state):
-        if self.value is not None:
+        if self.value is not None and self.value_state is state:
             return self.value
 
         operand = self.operand.resolve(state)
 
         invoke = self.fn if self.token else type(self).fn
         if not self.pure:
-            invoke = wrap_impure(self, invoke)
+            invoke = wrap_impure(self, invoke, state)
 
         if not isinstance(operand, BaseDeferred):
             return invoke(operand)
